@@ -8,6 +8,7 @@ import (
 	"google.golang.org/protobuf/encoding/prototext"
 	"google.golang.org/protobuf/proto"
 	"google.golang.org/protobuf/reflect/protoreflect"
+	"google.golang.org/protobuf/reflect/protoregistry"
 	"google.golang.org/protobuf/verifmc/core"
 	"google.golang.org/protobuf/verifmc/ref/refmsg"
 	"google.golang.org/protobuf/verifmc/univ"
@@ -18,7 +19,13 @@ import (
 func oneofInputs(c *core.Ctx) {
 	for _, name := range []string{"goproto.proto.test.TestAllTypes", "goproto.proto.test3.TestAllTypes", "opaque.goproto.proto.testeditions.TestAllTypes", "hybrid.goproto.proto.testeditions.TestAllTypes", "pb3.Oneofs", "goproto.proto.test.TestOneofWithRequired",
 		// oneofs with several members of one Go type (string x7, int32 x2): the decoder must not confuse them
-		"conformance.ConformanceRequest", "conformance.ConformanceResponse", "protobuf_test_messages.proto2.TestAllTypesProto2.ExtensionWithOneof"} {
+		"conformance.ConformanceRequest", "conformance.ConformanceResponse", "protobuf_test_messages.proto2.TestAllTypesProto2.ExtensionWithOneof",
+		// oneofs with a google.protobuf.NullValue member, whose JSON form is the literal null
+		"protobuf_test_messages.proto3.TestAllTypesProto3", "protobuf_test_messages.proto2.TestAllTypesProto2", "protobuf_test_messages.editions.proto3.TestAllTypesProto3"} {
+		if _, err := protoregistry.GlobalTypes.FindMessageByName(protoreflect.FullName(name)); err != nil {
+			c.Extra("missing_type_"+name, err.Error())
+			continue
+		}
 		for _, f := range []univ.Flavor{univ.Gen(name), univ.Dyn(name)} {
 			f := f
 			md := f.MT.Descriptor()
